@@ -302,8 +302,55 @@ def check(ctx: Ctx) -> None:
                           file=fv.file, node=fv.node)
         else:
             ctx.ok("NK2", inst)
+    config_rules(ctx)
     from .common import view_deps
     view_deps(ctx)
+
+
+def config_rules(ctx: Ctx) -> None:
+    """CONFIG: the constructor stores every configuration parameter in the attribute the vocabulary builder and the emitter read
+    (`self.x = ... x ...`, unconditionally), installs a default exactly when the stored value is None, starts from two empty maps
+    and builds the vocabulary once, unconditionally, after all of that."""
+    from ..astutil import path_conditions
+    p = ctx.p
+    init = p.func(f"{TOK}.__init__")
+    ctx.analysed(init)
+    body = init.node.body
+    calls = [c for c in walk_local(init.node) if isinstance(c, ast.Call) and call_method(c)[1] == "_construct_dictionary" and attr_chain(call_method(c)[0]) == ["self"]]
+    okc = len(calls) == 1 and not path_conditions(calls[0]) and not any(isinstance(a, (ast.For, ast.While)) for a in ancestors(calls[0]))
+    ctx.check(okc, "CONFIG", "the vocabulary is built exactly once, unconditionally, by the constructor", function=init.qualname,
+              construct="the constructor does not build the vocabulary exactly once on every path", message=f"{len(calls)} call(s) of _construct_dictionary",
+              file=init.file, node=calls[0] if calls else init.node)
+    build_line = calls[0].lineno if calls else 10**9
+    stores = [a for a in walk_local(init.node) if isinstance(a, ast.Assign) and any(isinstance(t, ast.Attribute) and attr_chain(t) and attr_chain(t)[0] == "self" for t in a.targets)]
+    late = [a for a in stores if a.lineno > build_line and not any(attr_chain(t)[-1].startswith("cur_") for t in a.targets if isinstance(t, ast.Attribute))]
+    ctx.check(not late, "CONFIG", "every configuration attribute is set before the vocabulary is built", function=init.qualname,
+              construct="a configuration attribute is assigned after the vocabulary was built", message=f"{[short(a) for a in late]}", file=init.file,
+              node=late[0] if late else init.node)
+    n = 0
+    for prm in init.params[1:]:
+        mine = [a for a in stores if any(attr_chain(t) == ["self", prm] for t in a.targets)]
+        direct = [a for a in mine if any(isinstance(x, ast.Name) and x.id == prm for x in ast.walk(a.value)) and not path_conditions(a) and a.lineno < build_line]
+        n += 1
+        ctx.check(len(direct) == 1, "CONFIG", f"parameter `{prm}` is stored in `self.{prm}` unconditionally, before the vocabulary is built", function=init.qualname,
+                  construct=f"constructor parameter `{prm}` does not reach `self.{prm}`", message=f"{[short(a, 70) for a in mine]}: the vocabulary and the emitter read "
+                  f"`self.{prm}`; without the store they use a stale or missing value", file=init.file, node=mine[0] if mine else init.node)
+        for a in mine:
+            if a in direct:
+                continue
+            pcs = path_conditions(a)
+            ok = len(pcs) == 1 and pcs[0][1] and isinstance(pcs[0][0], ast.Compare) and attr_chain(pcs[0][0].left) == ["self", prm] \
+                and isinstance(pcs[0][0].ops[0], (ast.Is, ast.Eq)) and isinstance(pcs[0][0].comparators[0], ast.Constant) and pcs[0][0].comparators[0].value is None
+            ctx.check(ok, "CONFIG", f"the default of `self.{prm}` is installed exactly when no value was given", function=init.qualname,
+                      construct=f"default of `self.{prm}` installed under a condition other than `self.{prm} is None`",
+                      message=f"`{short(a, 60)}` under {[(short(t, 40), h) for t, h in pcs]}: a configuration the caller supplied is overwritten (or a missing one stays None)",
+                      file=init.file, node=a)
+    ctx.floor("constructor parameters stored", n, 10)
+    for m in ("dictionary", "inverse_dictionary"):
+        z = [a for a in stores if any(attr_chain(t) == ["self", m] for t in a.targets)]
+        ok = len(z) == 1 and not path_conditions(z[0]) and z[0].lineno < build_line and ((isinstance(z[0].value, ast.Dict) and not z[0].value.keys) or src(z[0].value) == "dict()")
+        ctx.check(ok, "CONFIG", f"`self.{m}` starts as an empty map of this instance", function=init.qualname, construct=f"`self.{m}` is not a fresh empty map per instance",
+                  message=f"{[short(a) for a in z]}", file=init.file, node=z[0] if z else init.node)
 
 
 def thorough(ctx: Ctx) -> None:
